@@ -163,17 +163,20 @@ def execute(G, c, link):
         # echo: text handed back must be identical
         if entry in ("get_many", "getnext", "getbulk"):
             name = rb.enc_oid(d)
-            if entry == "get_many":
-                link.send(ag.build_reply(cfg, req, [rb.varbind(name, rb.enc_int(1))]))
-                r = cl.recv("get_many")
-                back = list(r.keys())
-            else:
-                # the echoed name must be *inside* the subtree to be yielded: append one arc and strip it in the comparison
-                name2 = rb.enc_oid(d + (1,))
-                link.send(ag.build_reply(cfg, req, [rb.varbind(name2, rb.enc_int(1))]))
-                r = cl.recv(entry, it)
-                back = [r[0]] if entry == "getnext" else [x[0] for x in r if x is not None]
-                s = s + ".1"
+            try:
+                if entry == "get_many":
+                    link.send(ag.build_reply(cfg, req, [rb.varbind(name, rb.enc_int(1))]))
+                    r = cl.recv("get_many")
+                    back = list(r.keys())
+                else:
+                    # the echoed name must be *inside* the subtree to be yielded: append one arc and strip it in the comparison
+                    name2 = rb.enc_oid(d + (1,))
+                    link.send(ag.build_reply(cfg, req, [rb.varbind(name2, rb.enc_int(1))]))
+                    r = cl.recv(entry, it)
+                    back = [r[0]] if entry == "getnext" else [x[0] for x in r if x is not None]
+                    s = s + ".1"
+            except BaseException as e:  # noqa: BLE001
+                raise core.Failure("text-roundtrip", "%s: reading the echoed OID back raised %r" % (info, e))
             if back != [s]:
                 raise core.Failure("text-roundtrip", "%s: echoed OID handed back as %r" % (info, back))
     return cls, "sent"
